@@ -23,6 +23,7 @@
 #include <signal.h>
 #include <time.h>
 
+#include <algorithm>
 #include <atomic>
 #include <cinttypes>
 #include <cstdint>
@@ -39,6 +40,13 @@ namespace vf {
 inline double now_s() {
   timespec ts;
   clock_gettime(CLOCK_MONOTONIC, &ts);
+  return ts.tv_sec + 1e-9 * ts.tv_nsec;
+}
+inline double cpu_s(pid_t pid = 0) {  // CPU time consumed by a process (0 = self); -1 if unknown
+  clockid_t cid = CLOCK_PROCESS_CPUTIME_ID;
+  if (pid != 0 && clock_getcpuclockid(pid, &cid) != 0) return -1;
+  timespec ts;
+  if (clock_gettime(cid, &ts) != 0) return -1;
   return ts.tv_sec + 1e-9 * ts.tv_nsec;
 }
 
@@ -107,6 +115,7 @@ struct Shared {
     std::atomic<uint64_t> cur;     // case being run (UINT64_MAX = idle)
     std::atomic<uint64_t> chunkEnd;
     std::atomic<double> started;   // wall time the case started
+    std::atomic<double> startedCpu;  // CPU time of the worker process when the case started
     char desc[kDescLen];
   } w[kMaxWorkers];
 };
@@ -135,6 +144,9 @@ struct Ctx {
               const std::string& detail = "");
   void count(const char* name, int64_t add = 1);
   bool distinct(uint64_t h);          // true if new
+  // like distinct(), and remembers the SMALLEST `tag` seen for this hash (deterministic representative of a
+  // state however the workers race); Runner::minTags() returns (hash, tag) pairs after the phase
+  bool distinctMin(uint64_t h, uint64_t tag);
   bool nontrivial(uint64_t h);        // true if new
   void sample(const std::string& s);  // first few are kept
   void describe(const std::string& s);  // what the worker is about to run (crash attribution)
@@ -248,7 +260,7 @@ class Runner {
         uint64_t cur = sh_->w[wi].cur.load();
         std::string why = WIFSIGNALED(st) ? "signal " + std::to_string(WTERMSIG(st))
                                           : "exit " + std::to_string(WEXITSTATUS(st));
-        if (killed_[wi]) why = "watchdog: case exceeded " + std::to_string((int)a.caseTimeout) + " s";
+        if (killed_[wi]) why = "watchdog: case exceeded " + std::to_string((int)a.caseTimeout) + " s of CPU time (or 30x that asleep)";
         killed_[wi] = false;
         std::string d(sh_->w[wi].desc);
         std::string err = readErr(wi);
@@ -277,10 +289,16 @@ class Runner {
       if (t > a.deadline && !sh_->stop.load()) sh_->stop = 1;
       for (int i = 0; i < W; ++i) {
         if (!pid[i]) continue;
-        if (sh_->w[i].cur.load() != UINT64_MAX && t - sh_->w[i].started.load() > a.caseTimeout &&
-            !killed_[i]) {
-          killed_[i] = true;
-          kill(pid[i], SIGKILL);
+        // The watchdog judges CPU time, not wall time: an overloaded or briefly frozen machine must not
+        // turn into a "hang".  A case that sleeps forever is caught by a (much larger) wall limit.
+        if (sh_->w[i].cur.load() != UINT64_MAX && t - sh_->w[i].started.load() > a.caseTimeout && !killed_[i]) {
+          double cpuNow = cpu_s(pid[i]);
+          bool burnt = cpuNow >= 0 && cpuNow - sh_->w[i].startedCpu.load() > a.caseTimeout;
+          bool asleep = t - sh_->w[i].started.load() > 30 * a.caseTimeout;
+          if ((burnt || asleep) && sh_->w[i].cur.load() != UINT64_MAX) {
+            killed_[i] = true;
+            kill(pid[i], SIGKILL);
+          }
         }
       }
       usleep(2000);
@@ -309,6 +327,15 @@ class Runner {
     s += tail;
     puts(s.c_str());
     totalViol_ += sh_->viol.load();
+    if (usedMin_) {
+      uint64_t n = 1ULL << setLog2_;
+      for (uint64_t i = 0; i < n; ++i) {
+        uint64_t v = valA_[i].load(std::memory_order_relaxed);
+        if (v) minTags_.push_back({setA_[i].load(std::memory_order_relaxed), v - 1});
+      }
+      std::sort(minTags_.begin(), minTags_.end(),
+                [](const std::pair<uint64_t, uint64_t>& x, const std::pair<uint64_t, uint64_t>& y) { return x.second < y.second; });
+    }
     freeShared();
     if (emitFd_ >= 0) {
       close(emitFd_);
@@ -331,6 +358,7 @@ class Runner {
   }
   int emitFd_ = -1;
   std::string emitPath_;
+  bool usedMin_ = false;  // set by the harness before a phase that uses distinctMin
 
   // a phase that exists only for stand-alone replay (`--case name:idx`)
   void replayOnly(const std::string& name, CaseFn fn) {
@@ -378,12 +406,42 @@ class Runner {
   }
   std::atomic<uint64_t>* setA_ = nullptr;
   std::atomic<uint64_t>* setB_ = nullptr;
+  std::atomic<uint64_t>* valA_ = nullptr;  // min tag + 1 per slot of setA_ (0 = none)
+  std::vector<std::pair<uint64_t, uint64_t>> minTags_;
+  const std::vector<std::pair<uint64_t, uint64_t>>& minTags() const { return minTags_; }
+  int64_t slotOf(std::atomic<uint64_t>* tab, uint64_t h, bool* isNew) {
+    if (h == 0) h = 1;
+    uint64_t mask = (1ULL << setLog2_) - 1;
+    uint64_t i = mix64(h) & mask;
+    for (uint64_t probe = 0; probe < 4096; ++probe) {
+      uint64_t v = tab[i].load(std::memory_order_relaxed);
+      if (v == h) {
+        *isNew = false;
+        return (int64_t)i;
+      }
+      if (v == 0) {
+        uint64_t exp = 0;
+        if (tab[i].compare_exchange_strong(exp, h)) {
+          *isNew = true;
+          return (int64_t)i;
+        }
+        if (exp == h) {
+          *isNew = false;
+          return (int64_t)i;
+        }
+      }
+      i = (i + 1) & mask;
+    }
+    sh_->distinctCapped++;
+    *isNew = false;
+    return -1;
+  }
   std::map<std::string, int> slots_;
   bool single_ = false;
+  size_t setLog2_ = 22;
 
  private:
   std::string phase_;
-  size_t setLog2_ = 22;
   uint64_t totalViol_ = 0;
   bool killed_[kMaxWorkers] = {};
   uint64_t resumeFrom_[kMaxWorkers];
@@ -400,6 +458,9 @@ class Runner {
                                          MAP_SHARED | MAP_ANONYMOUS | MAP_NORESERVE, -1, 0);
     setB_ = (std::atomic<uint64_t>*)mmap(nullptr, sb, PROT_READ | PROT_WRITE,
                                          MAP_SHARED | MAP_ANONYMOUS | MAP_NORESERVE, -1, 0);
+    valA_ = (std::atomic<uint64_t>*)mmap(nullptr, sb, PROT_READ | PROT_WRITE,
+                                         MAP_SHARED | MAP_ANONYMOUS | MAP_NORESERVE, -1, 0);
+    minTags_.clear();
     for (int i = 0; i < kMaxWorkers; ++i) {
       resumeFrom_[i] = UINT64_MAX;
       resumeEnd_[i] = 0;
@@ -407,6 +468,7 @@ class Runner {
     }
   }
   void freeShared() {
+    munmap((void*)valA_, sizeof(uint64_t) << setLog2_);
     munmap((void*)sh_, sizeof(Shared));
     munmap((void*)setA_, sizeof(uint64_t) << setLog2_);
     munmap((void*)setB_, sizeof(uint64_t) << setLog2_);
@@ -452,6 +514,7 @@ class Runner {
         c.idx = i;
         sh_->w[wi].desc[0] = 0;
         sh_->w[wi].started = now_s();
+        sh_->w[wi].startedCpu = cpu_s();
         sh_->w[wi].cur = i;
         fn(i, c);
         sh_->w[wi].cur = UINT64_MAX;
@@ -497,6 +560,16 @@ inline bool Ctx::distinct(uint64_t h) {
   bool n = r->insertSet(r->setA_, h);
   if (n) r->sh_->distinct.fetch_add(1, std::memory_order_relaxed);
   return n;
+}
+inline bool Ctx::distinctMin(uint64_t h, uint64_t tag) {
+  bool isNew = false;
+  int64_t slot = r->slotOf(r->setA_, h, &isNew);
+  if (slot < 0) return false;
+  if (isNew) r->sh_->distinct.fetch_add(1, std::memory_order_relaxed);
+  uint64_t want = tag + 1, cur = r->valA_[slot].load(std::memory_order_relaxed);
+  while ((cur == 0 || want < cur) && !r->valA_[slot].compare_exchange_weak(cur, want)) {
+  }
+  return isNew;
 }
 inline bool Ctx::nontrivial(uint64_t h) {
   bool n = r->insertSet(r->setB_, h);
